@@ -14,7 +14,7 @@ pub fn def() -> CheckDef {
         meta: CheckMeta {
             id: "C13",
             level: "exploration",
-            rule: "orchestrations of 2-3 worker processes on one path (file existing or not yet created); each worker opens the database, reads all marker keys, commits its own marker, holds the database for a generated time and closes. Generated: start order and offsets (0-40 ms), hold times (0-25 ms), and per worker an optional gate at a libc boundary (before open64, after open64 returned, before / after the file-size query (statx), the 1st/2nd write of the creator, fsync, mmap64, close) at which the LD_PRELOAD shim parks the process until the orchestrator releases it; all gate choices x release orders for two processes, sampled for three. A worker that does not reach its gate within a timeout is taken to be waiting for the kernel lock and the orchestrator moves on: timing decides which interleaving is produced, never the verdict. Oracle from CLOCK_MONOTONIC timestamps taken by the workers (open returned / about to close): the intervals are pairwise disjoint; every worker sees the marker of every worker whose interval ended before its own began; every worker exits 0 (an Err or panic from open is a failure to wait). Non-trivial = orchestration in which a second open was issued while another process held the database or was creating it. Distinct = hash of the orchestration.",
+            rule: "orchestrations of 2-3 worker processes on one path (file existing or not yet created); each worker opens the database, reads all marker keys, commits its own marker, holds the database for a generated time and closes. Generated: start order and offsets (0-40 ms), hold times (0-25 ms), and per worker an optional gate at a libc boundary (before open64, after open64 returned, before / after the file-size query (statx), the 1st/2nd write of the creator, fsync, mmap64, close) at which the LD_PRELOAD shim parks the process until the orchestrator releases it; all gate choices x release orders for two processes; for three: structured chains (A parked while holding, B queued behind it, C started only after A or B was released and has closed) and seeded samples. A worker that does not reach its gate within a timeout is taken to be waiting for the kernel lock and the orchestrator moves on: timing decides which interleaving is produced, never the verdict. Oracle from CLOCK_MONOTONIC timestamps taken by the workers (open returned / about to close): the intervals are pairwise disjoint; every worker sees the marker of every worker whose interval ended before its own began; every worker exits 0 (an Err or panic from open is a failure to wait); each worker also churns a bucket of its own and runs DB::check(), and after all have closed the file must still hold every marker and every worker's data and pass the independent parser. Non-trivial = orchestration in which a second open was issued while another process held the database or was creating it. Distinct = hash of the orchestration.",
             assumptions: &[
                 "flock itself is a raw syscall invisible to the shim; its effect is observed",
                 "three processes are sampled, not enumerated",
@@ -31,6 +31,9 @@ pub struct ProcSpec {
     pub gate: String,
     pub hold_ms: u32,
     pub start_delay_ms: u32,
+    /// start this process only after the gate of process `n` has been released (a late opener)
+    #[serde(default)]
+    pub start_after_release_of: Option<usize>,
 }
 
 #[derive(Serialize, Deserialize, Clone, Debug, PartialEq, Eq, Hash)]
@@ -84,6 +87,24 @@ pub fn worker(args: &[String]) -> i32 {
             }
             tx.commit().map_err(|e| format!("commit: {}", e))?;
         }
+        // some churn of its own (frees and reuses pages), so that an opener working from a stale
+        // view of the file would damage what the others committed
+        for round in 0..2u8 {
+            let tx = db.tx(true).map_err(|e| e.to_string())?;
+            {
+                let b = tx.get_or_create_bucket(format!("data{}", id)).map_err(|e| e.to_string())?;
+                for i in 0..12u8 {
+                    b.put(vec![b'k', i], vec![b'a' + round + id as u8; 150 + 20 * round as usize]).map_err(|e| e.to_string())?;
+                }
+                if round == 1 {
+                    for i in 0..6u8 {
+                        let _ = b.delete(vec![b'k', i * 2]);
+                    }
+                }
+            }
+            tx.commit().map_err(|e| format!("commit: {}", e))?;
+        }
+        db.check().map_err(|e| format!("check() inside process {}: {}", id, e))?;
         std::thread::sleep(Duration::from_millis(hold));
         rep.t_close = now_ns();
         drop(db);
@@ -106,6 +127,7 @@ pub struct Orchestration {
     pub reports: Vec<Option<ProcReport>>,
     pub exit: Vec<Option<i32>>,
     pub contended: bool,
+    pub final_err: Option<String>,
 }
 
 pub fn run_case(case: &C13Case, dir: &Path) -> Result<Orchestration, Failure> {
@@ -121,11 +143,13 @@ pub fn run_case(case: &C13Case, dir: &Path) -> Result<Orchestration, Failure> {
         return Err(Failure::new("harness_panic", format!("{} missing (run setup)", shim.display())));
     }
     let n = case.procs.len();
-    let mut children: Vec<Option<Child>> = Vec::new();
-    let mut gate_dirs: Vec<Option<PathBuf>> = Vec::new();
-    let mut outs: Vec<PathBuf> = Vec::new();
+    let mut children: Vec<Option<Child>> = (0..n).map(|_| None).collect();
+    let mut gate_dirs: Vec<Option<PathBuf>> = vec![None; n];
+    let mut outs: Vec<PathBuf> = (0..n).map(|i| dir.join(format!("p{}.json", i))).collect();
     let mut contended = false;
-    for (i, p) in case.procs.iter().enumerate() {
+    let mut started = 0usize;
+    let mut spawn = |i: usize, children: &mut Vec<Option<Child>>, gate_dirs: &mut Vec<Option<PathBuf>>, started: &mut usize, contended: &mut bool| -> Result<(), Failure> {
+        let p = &case.procs[i];
         std::thread::sleep(Duration::from_millis(p.start_delay_ms as u64));
         let outp = dir.join(format!("p{}.json", i));
         let _ = std::fs::remove_file(&outp);
@@ -142,11 +166,12 @@ pub fn run_case(case: &C13Case, dir: &Path) -> Result<Orchestration, Failure> {
             cmd.env("JV_SHIM_GATE", format!("{}:{}", p.gate, g.display()));
             Some(g)
         };
-        if i > 0 {
-            contended = true;
+        if *started > 0 {
+            *contended = true;
         }
+        *started += 1;
         let ch = cmd.spawn().map_err(|e| Failure::new("harness_panic", format!("spawn: {}", e)))?;
-        children.push(Some(ch));
+        children[i] = Some(ch);
         // wait until it reaches its gate, exits, or appears to be waiting (timeout)
         let t0 = Instant::now();
         loop {
@@ -155,7 +180,7 @@ pub fn run_case(case: &C13Case, dir: &Path) -> Result<Orchestration, Failure> {
                     break;
                 }
             }
-            if let Some(Some(c)) = children.last_mut() {
+            if let Some(c) = children[i].as_mut() {
                 if let Ok(Some(_)) = c.try_wait() {
                     break;
                 }
@@ -165,19 +190,49 @@ pub fn run_case(case: &C13Case, dir: &Path) -> Result<Orchestration, Failure> {
             }
             std::thread::sleep(Duration::from_micros(300));
         }
-        gate_dirs.push(gd);
-        outs.push(outp);
+        gate_dirs[i] = gd;
+        Ok(())
+    };
+    for i in 0..n {
+        if case.procs[i].start_after_release_of.is_none() {
+            spawn(i, &mut children, &mut gate_dirs, &mut started, &mut contended)?;
+        }
     }
-    // release the gates in the generated order, letting things settle in between
-    for &i in &case.release {
-        if let Some(Some(g)) = gate_dirs.get(i) {
+    // release the gates in the generated order, letting things settle in between; late openers
+    // are started once the process they wait for has been released (and had time to close)
+    let mut released = vec![false; n];
+    let mut order: Vec<usize> = case.release.clone();
+    for i in 0..n {
+        if !order.contains(&i) {
+            order.push(i);
+        }
+    }
+    for &i in &order {
+        if i >= n {
+            continue;
+        }
+        if let Some(g) = &gate_dirs[i] {
             let _ = std::fs::write(g.join("go"), b"");
-            std::thread::sleep(Duration::from_millis(3));
+        }
+        released[i] = true;
+        std::thread::sleep(Duration::from_millis(3));
+        for j in 0..n {
+            if children[j].is_none() && case.procs[j].start_after_release_of == Some(i) {
+                // give the released process time to finish and close
+                std::thread::sleep(Duration::from_millis(40));
+                spawn(j, &mut children, &mut gate_dirs, &mut started, &mut contended)?;
+            }
+        }
+    }
+    for j in 0..n {
+        if children[j].is_none() {
+            spawn(j, &mut children, &mut gate_dirs, &mut started, &mut contended)?;
         }
     }
     for g in gate_dirs.iter().flatten() {
         let _ = std::fs::write(g.join("go"), b"");
     }
+    let _ = &mut outs;
     // wait for everybody
     let t0 = Instant::now();
     let mut exit: Vec<Option<i32>> = vec![None; n];
@@ -207,11 +262,41 @@ pub fn run_case(case: &C13Case, dir: &Path) -> Result<Orchestration, Failure> {
         std::thread::sleep(Duration::from_micros(500));
     }
     let reports: Vec<Option<ProcReport>> = outs.iter().map(|o| std::fs::read_to_string(o).ok().and_then(|s| serde_json::from_str(&s).ok())).collect();
+    // after everybody has closed: the file must hold every marker and be sound
+    let mut final_err: Option<String> = None;
+    if exit.iter().all(|e| *e == Some(0)) {
+        let r = catch(|| -> Result<(), String> {
+            let dbh = jammdb::OpenOptions::new().pagesize(1024).num_pages(16).open(&db).map_err(|e| format!("final open: {}", e))?;
+            dbh.check().map_err(|e| format!("final check(): {}", e))?;
+            let tx = dbh.tx(false).map_err(|e| e.to_string())?;
+            let b = tx.get_bucket("m").map_err(|e| format!("marker bucket: {}", e))?;
+            for i in 0..n {
+                if b.get_kv(format!("p{}", i)).is_none() {
+                    return Err(format!("marker of process {} is missing after all processes finished", i));
+                }
+                let d = tx.get_bucket(format!("data{}", i)).map_err(|e| format!("data bucket of process {}: {}", i, e))?;
+                if d.kv_pairs().count() != 6 {
+                    return Err(format!("data of process {} is damaged ({} entries instead of 6)", i, d.kv_pairs().count()));
+                }
+            }
+            Ok(())
+        });
+        final_err = match r {
+            Err(p) => Some(format!("final verification panicked: {} @ {}", p.msg, p.location)),
+            Ok(Err(e)) => Some(e),
+            Ok(Ok(())) => None,
+        };
+        let bytes = std::fs::read(&db).unwrap_or_default();
+        let rep = crate::fsck::fsck(&bytes, 1024);
+        if final_err.is_none() && !rep.ok() {
+            final_err = Some(format!("file not well-formed after all processes finished: {}", rep.errors.join("; ")));
+        }
+    }
     for g in gate_dirs.iter().flatten() {
         let _ = std::fs::remove_dir_all(g);
     }
     let _ = std::fs::remove_file(&db);
-    Ok(Orchestration { reports, exit, contended })
+    Ok(Orchestration { reports, exit, contended, final_err })
 }
 
 pub fn judge(case: &C13Case, o: &Orchestration) -> Option<Failure> {
@@ -224,6 +309,9 @@ pub fn judge(case: &C13Case, o: &Orchestration) -> Option<Failure> {
                 return Some(Failure::new("open_failed", format!("process {} (gate '{}') failed instead of waiting: {}", i, case.procs[i].gate, err)));
             }
         }
+    }
+    if let Some(e) = &o.final_err {
+        return Some(Failure::new("lost_commit", e.clone()));
     }
     let reps: Vec<&ProcReport> = o.reports.iter().flatten().collect();
     if reps.len() != case.procs.len() {
@@ -285,10 +373,33 @@ fn shard(ctx: &ShardCtx, known: &Known) -> ShardOut {
                     cases.push(C13Case {
                         file_exists: exists,
                         procs: vec![
-                            ProcSpec { gate: g0.clone(), hold_ms: rng.below(20) as u32, start_delay_ms: 0 },
-                            ProcSpec { gate: g1.clone(), hold_ms: rng.below(20) as u32, start_delay_ms: rng.below(5) as u32 },
+                            ProcSpec { gate: g0.clone(), hold_ms: rng.below(20) as u32, start_delay_ms: 0, start_after_release_of: None },
+                            ProcSpec { gate: g1.clone(), hold_ms: rng.below(20) as u32, start_delay_ms: rng.below(5) as u32, start_after_release_of: None },
                         ],
                         release: if order == 0 { vec![0, 1] } else { vec![1, 0] },
+                    });
+                }
+            }
+        }
+    }
+    // chains of three: A holds (parked at a gate while holding the database), B queues behind it,
+    // C arrives only after A (or B) has been released and closed, while the other still holds
+    for exists in [false, true] {
+        for ga in ["close:1", "mmap:1", "fsync:1"] {
+            for gb in ["", "close:1", "mmap:1"] {
+                for after in [0usize, 1] {
+                    k += 1;
+                    if k % ctx.nshards != ctx.shard {
+                        continue;
+                    }
+                    cases.push(C13Case {
+                        file_exists: exists,
+                        procs: vec![
+                            ProcSpec { gate: ga.to_string(), hold_ms: 5, start_delay_ms: 0, start_after_release_of: None },
+                            ProcSpec { gate: gb.to_string(), hold_ms: 60, start_delay_ms: 0, start_after_release_of: None },
+                            ProcSpec { gate: String::new(), hold_ms: 5, start_delay_ms: 0, start_after_release_of: Some(after) },
+                        ],
+                        release: vec![0, 1, 2],
                     });
                 }
             }
@@ -305,6 +416,7 @@ fn shard(ctx: &ShardCtx, known: &Known) -> ShardOut {
                 gate: if rng.chance(1, 2) { String::new() } else { gs[rng.below(if i == 0 { gs.len() } else { 9 } as u64) as usize].clone() },
                 hold_ms: rng.below(25) as u32,
                 start_delay_ms: rng.below(40) as u32 * (i > 0) as u32,
+                start_after_release_of: if i == 2 && rng.chance(1, 2) { Some(rng.below(2) as usize) } else { None },
             })
             .collect();
         let mut release: Vec<usize> = (0..n).collect();
